@@ -33,7 +33,7 @@ TCfg == [originOf |-> [r \in Req |-> IF r <= NReq THEN T.cfg.originOf[r] ELSE ""
          maxConn |-> T.cfg.maxConn, maxKeep |-> T.cfg.maxKeep, expiry |-> T.cfg.expiry,
          poolTO |-> [r \in Req |-> IF r <= NReq THEN T.cfg.poolTO[r] ELSE NoTimeout],
          mux |-> SeqToSet(T.cfg.mux), muxGuess |-> SeqToSet(T.cfg.muxGuess), noKeep |-> SeqToSet(T.cfg.noKeep),
-         dev |-> DevChoices[di]]
+         dev |-> DevChoices[di], threads |-> T.cfg.threads]
 
 TInit ==
   /\ tid \in 1..Len(Traces) /\ di \in 1..Len(DevChoices)
@@ -108,7 +108,8 @@ TSub(r) ==
   \/ (TCall(r) \/ TRetry(r) \/ TLeave(r) \/ CloseEvicted(r) \/ StartWait(r) \/ Wake(r) \/ PoolTimeout(r)
       \/ Enter(r) \/ ReqLock(r) \/ ConnectOk(r) \/ Established(r) \/ Activate(r)
       \/ Send(r) \/ (Ev.got /\ RecvHead(r)) \/ (Ev.bend = "full" /\ ReadAll(r)) \/ (Ev.bend = "partial" /\ Abandon(r)) \/ ConnRelease(r)
-      \/ CancelDeliver(r) \/ ReleaseStream(r) \/ NativeCancelInShield(r)) /\ UNCHANGED flag
+      \/ CancelDeliver(r) \/ ReleaseStream(r) \/ NativeCancelInShield(r)
+      \/ Enqueue(r) \/ Requeue(r)) /\ UNCHANGED flag
   \/ Faulty(r) /\ flag' = [flag EXCEPT ![r] = "none"]
 
 (***************************************************************************)
@@ -145,6 +146,9 @@ EnvStep ==      \* the driver's own stimuli
      \/ /\ Ev.e = "PeerClose" /\ cdead' = [cdead EXCEPT ![Ev.c] = TRUE]
         /\ UNCHANGED <<cfg, pool, nextc, cst, corg, cmux, cexp, cerr, cstr, ccnt, cexch, cwire, evicted, queue, rvars, clock, budget, pclosed, flag>>
      \/ /\ Ev.e = "Fault" /\ flag' = [flag EXCEPT ![Ev.r] = "fail"]
+        \* C08: a network operation that fails although nothing was injected is explained only
+        \* by the connection having been closed under the request
+        /\ Chk("t.Collateral", Ev.inj \/ (pc[Ev.r] \in InExchange /\ cst[asg[Ev.r]] = "closed"))
         /\ UNCHANGED vars
      \/ /\ Ev.e = "Cancel" /\ creq' = [creq EXCEPT ![Ev.r] = Ev.style]
         /\ UNCHANGED <<cfg, pool, nextc, cvars, evicted, queue, pc, asg, tocl, nxt, exc, sent, got, wdl, clock, budget, pclosed, flag>>
@@ -154,7 +158,7 @@ EndStep ==      \* commit: the model projects to what was logged
   /\ l <= N
   /\ Ev.e \in {"Q", "End"} \/ k = 1
   /\ Match(Ev.obs) /\ Props
-  /\ Ev.e = "End" => Chk("i.NoStuckCaller", EndOK)
+  /\ Ev.e = "End" => Chk("i.NoStuckCaller", EndOK /\ \A r \in SeqToSet(Ev.live) : pc[r] \notin Terminal)
   \* observed on the simulated network when a response head is handed to its caller:
   \* C10 - the request went to a stream made for exactly its origin, TLS per scheme
   \* C14 - its head was seen on at most one stream
@@ -168,7 +172,9 @@ EndStep ==      \* commit: the model projects to what was logged
   \* C14 - however the call ended, its request head was seen on at most one stream
   /\ (Ev.e = "Q" /\ Ev.ret # "") => Chk("o.AtMostOnceAtReturn", Ev.rsent <= 1)
   /\ Ev.e = "Q" /\ Ev.r \in TReq =>
-        Chk("ret", IF Ev.ret = "" THEN pc[Ev.r] \notin Terminal ELSE pc[Ev.r] = RetPc(Ev.ret))
+        \* (threads: the call returns a quantum or two after its last critical section - the lock
+        \*  release is a pre-emption point; whoever has not returned by the End is checked there)
+        Chk("ret", IF Ev.ret = "" THEN (Threads \/ pc[Ev.r] \notin Terminal) ELSE pc[Ev.r] = RetPc(Ev.ret))
   /\ l' = l + 1 /\ k' = 0
   \* HTTP/2 connection-level error is read off the availability the connection reports
   /\ cerr' = [c \in Conn |-> IF c \in Known(Ev.obs) /\ cmux[c] /\ cst[c] \in {"active", "idle"}
